@@ -61,7 +61,7 @@ pub trait Engine: Sync {
     /// Execute one case, recording observations in the worker.
     fn run_case(&self, w: &mut Worker, idx: u64);
     /// Human-readable description of a case's input (used when a worker dies on it).
-    fn describe_case(&self, prop: &str, tier: Tier, seed: u64, idx: u64) -> Value;
+    fn describe_case(&self, prop: &str, tier: Tier, seed: u64, idx: u64, sub: u64) -> Value;
     /// How cases are generated and what counts as distinct / non-trivial.
     fn rule(&self, prop: &str) -> String;
     /// Floors: reasons why this run must be called inconclusive.
@@ -111,6 +111,7 @@ pub struct Worker {
     evaluations: u64,
     out: std::io::Stdout,
     pub current_case: u64,
+    cur_file: Option<std::fs::File>,
 }
 
 impl Worker {
@@ -168,8 +169,17 @@ impl Worker {
         let _ = writeln!(o, "I {} case={}", why.replace('\n', " "), self.current_case);
         let _ = o.flush();
     }
+    /// Record the sub-index of the input about to be run inside the current case, so
+    /// that a death of this process can be pinned to one input.
+    pub fn sub(&mut self, sub: u64) {
+        use std::os::unix::fs::FileExt;
+        if let Some(f) = &self.cur_file {
+            let _ = f.write_at(&sub.to_le_bytes(), 0);
+        }
+    }
     fn begin(&mut self, idx: u64) {
         self.current_case = idx;
+        self.sub(0);
         let mut o = self.out.lock();
         let _ = writeln!(o, "B {idx}");
         let _ = o.flush();
@@ -236,7 +246,14 @@ pub fn worker_main(engine: &dyn Engine, args: &[String]) -> i32 {
         evaluations: 0,
         out: std::io::stdout(),
         current_case: 0,
+        cur_file: None,
     };
+    w.cur_file = std::fs::OpenOptions::new()
+        .create(true)
+        .write(true)
+        .truncate(true)
+        .open(w.scratch.join(format!("cur-{shard}.bin")))
+        .ok();
     let total = engine.total_cases(&prop, tier);
     let mut idx = shard as u64;
     while idx < total {
@@ -363,6 +380,13 @@ struct Child {
     done: bool,
     got_counters: bool,
     started: Instant,
+}
+
+fn read_sub(scratch: &Path, shard: usize) -> u64 {
+    std::fs::read(scratch.join(format!("cur-{shard}.bin")))
+        .ok()
+        .and_then(|b| b.get(..8).map(|x| u64::from_le_bytes(x.try_into().unwrap())))
+        .unwrap_or(0)
 }
 
 fn cpu_seconds(pid: u32) -> Option<f64> {
@@ -550,7 +574,8 @@ pub fn check_main(engine: &dyn Engine, o: &CheckOptions) -> i32 {
                     let stderr_tail = std::fs::read_to_string(scratch.join(format!("stderr-{shard}.txt")))
                         .unwrap_or_default();
                     let tail: String = stderr_tail.chars().rev().take(600).collect::<String>().chars().rev().collect();
-                    agg.aborts.push(json!({"case": at, "how": how, "stderr_tail": tail}));
+                    let sub = read_sub(&scratch, shard);
+                    agg.aborts.push(json!({"case": at, "sub": sub, "how": how, "stderr_tail": tail}));
                     if let Some(at) = at {
                         respawns += 1;
                         if respawns > 200 {
@@ -576,7 +601,8 @@ pub fn check_main(engine: &dyn Engine, o: &CheckOptions) -> i32 {
                 if c.last_begin.is_some() && cpu - c.cpu_at_begin > cpu_budget {
                     // logical-time verdict: this case burnt its CPU budget
                     let _ = c.proc.kill();
-                    agg.aborts.push(json!({"case": c.last_begin, "how": format!("cpu budget of {cpu_budget}s exhausted"), "stderr_tail": ""}));
+                    let sub = read_sub(&scratch, c.shard);
+                    agg.aborts.push(json!({"case": c.last_begin, "sub": sub, "how": format!("cpu budget of {cpu_budget}s exhausted"), "stderr_tail": ""}));
                     // Eof will follow and trigger the respawn; mark so the death is not reported twice
                     c.last_begin = c.last_begin.map(|x| x);
                     c.got_counters = false;
@@ -616,15 +642,16 @@ pub fn check_main(engine: &dyn Engine, o: &CheckOptions) -> i32 {
     // aborts -> violations of a totality property, otherwise masked upstream
     for a in agg.aborts.clone() {
         let case = a["case"].as_u64();
+        let sub = a["sub"].as_u64().unwrap_or(0);
         let desc = case
-            .map(|c| engine.describe_case(&o.prop, o.tier, o.seed, c))
+            .map(|c| engine.describe_case(&o.prop, o.tier, o.seed, c, sub))
             .unwrap_or(Value::Null);
         if engine.abort_is_violation(&o.prop) {
             let how = a["how"].as_str().unwrap_or("").to_string();
             let sig = crate::util::abort_signature(&how, a["stderr_tail"].as_str().unwrap_or(""), &desc);
             agg.violations.push(json!({
                 "sig": sig, "what": format!("worker died while running the case: {how}"),
-                "case": case, "witness": {"input": desc, "how": how, "stderr_tail": a["stderr_tail"]},
+                "case": case, "witness": {"input": desc, "sub": sub, "how": how, "stderr_tail": a["stderr_tail"]},
             }));
         } else {
             *agg.counters.entry("masked_upstream:abort".to_string()).or_insert(0) += 1;
